@@ -1,6 +1,7 @@
 package checks
 
 import (
+	"bytes"
 	"encoding/json"
 	"fmt"
 
@@ -24,8 +25,9 @@ type c06Case struct {
 	PadLen  int     `json:"padlen"`
 	PadPat  int     `json:"padpat"`
 	IVPat   int     `json:"ivpat"`
-	Warm    int     `json:"warm"` // lib2ref: the sending key object has carried a long (1) / an empty (2) message before
-	Env     []int   `json:"env,omitempty"` // random-source answers during protection (explorer choices)
+	Warm    int     `json:"warm"`            // lib2ref: the sending key object has carried a long (1) / an empty (2) message before
+	Env     []int   `json:"env,omitempty"`   // random-source answers during protection (explorer choices)
+	Again   int     `json:"again,omitempty"` // lib2ref: the same message object is protected a second time after 1: the Message ID changed, 2: under another SA (rekey), 3: by the other role; the second datagram is the one examined
 }
 
 func init() {
@@ -82,6 +84,11 @@ func runC06(c *engine.Ctx) {
 					evalC06(c, c06Case{K: "lib2ref", Name: name, M: m, Suite: si, Pattern: pat, SenderI: sI})
 					if pat == 2 {
 						evalC06(c, c06Case{K: "lib2ref", Name: name, M: m, Suite: si, Pattern: pat, SenderI: sI, Warm: 1 + (si+b2int(sI))%2})
+						if len(m.P) <= 1 {
+							for ag := 1; ag <= 3; ag++ {
+								evalC06(c, c06Case{K: "lib2ref", Name: name, M: m, Suite: si, Pattern: pat, SenderI: sI, Again: ag})
+							}
+						}
 					}
 				}
 				minPad := (16 - (len(inner)+1)%16) % 16
@@ -178,13 +185,61 @@ func evalC06(c *engine.Ctx, cs c06Case) {
 		if seam.Run != nil {
 			cs.Env = seam.Run.Choices()
 		}
-		if seam.Failed() && err != nil {
+		retried := ""
+		if seam.Failed() && err != nil && pi == nil {
 			c.Count("protection_refused_on_source_failure", 1)
-			return
+			// the caller retries with the same message object once the source is healthy again: what is sent then
+			// must still be the message the caller built
+			hs := engine.NewSeam(nil, nil)
+			hs.Stream = uint64(cs.Pattern) + 100
+			rst := engine.Install(hs)
+			pi = engine.Catch(func() { b, err = ike.EncodeEncrypt(lm, sa, roleOf(cs.SenderI)) })
+			rst()
+			if err != nil && pi == nil {
+				c.Count("retry_refused", 1)
+				return
+			}
+			retried = "/retry-after-failed-attempt"
 		}
 		if pi != nil {
 			c.Violate(pi.Sig(), "EncodeEncrypt panics: "+pi.Value, cs)
 			return
+		}
+		first := b
+		wantHdr := m.H
+		wantInnerFirst := -1
+		if cs.Again != 0 && err == nil {
+			// second protection of the same message object (now holding exactly the Encrypted payload)
+			sa2, senderI2 := sa, cs.SenderI
+			switch cs.Again {
+			case 1:
+				lm.IKEHeader.MessageID += 7
+				wantHdr.MsgID += 7
+			case 2:
+				ks = univ.MakeKeySet(cs.Suite, 2, cs.Pattern+1)
+				if sa2, err = univ.NewSA(ks); err != nil {
+					c.Violate("sa-construction", errStr(err), cs)
+					return
+				}
+			case 3:
+				senderI2 = !cs.SenderI
+			}
+			ske, ska = ks.DirKeys(senderI2)
+			hs := engine.NewSeam(nil, nil)
+			hs.Stream = uint64(cs.Pattern) + 200
+			rst := engine.Install(hs)
+			pi = engine.Catch(func() { b, err = ike.EncodeEncrypt(lm, sa2, roleOf(senderI2)) })
+			rst()
+			if pi != nil {
+				c.Violate(pi.Sig(), "second EncodeEncrypt of the same message object panics: "+pi.Value, cs)
+				return
+			}
+			if err != nil {
+				c.Count("second_protection_refused", 1)
+				return
+			}
+			wantInnerFirst = int(ref.PSK)
+			retried = fmt.Sprintf("/second-protection(%d)", cs.Again)
 		}
 		if err != nil {
 			if !protectedFits(m, ks.Suite.Integ.OutLen) {
@@ -195,6 +250,20 @@ func evalC06(c *engine.Ctx, cs c06Case) {
 		}
 		c.Traces++
 		r, uerr := ref.Unprotect(ks.Suite, ske, ska, b, true)
+		if wantInnerFirst >= 0 {
+			// the inner chain is the first datagram's Encrypted payload: compare octets (the strict parser does not
+			// model an Encrypted payload inside an Encrypted payload)
+			if r == nil || (uerr != nil && !contains(uerr.Error(), "inner chain")) {
+				c.Violate("lib2ref/"+classifySK(uerr)+retried, fmt.Sprintf("%s %v: independent receiver refuses the second protection of one message object: %v", cs.Name, ks.Suite, uerr), cs)
+				return
+			}
+			if r.H != wantHdr || int(r.First) != wantInnerFirst || !bytes.Equal(r.Inner, first[28:]) {
+				c.Violate("lib2ref/inner"+retried, fmt.Sprintf("%s %v: second protection carries header %s first %d inner %s; the message object held the Encrypted payload %s", cs.Name, ks.Suite, r.H.Canon(), r.First, engine.Hex(trunc(r.Inner, 40)), engine.Hex(trunc(first[28:], 40))), cs)
+				return
+			}
+			c.Count("second_protections_verified", 1)
+			return
+		}
 		if uerr != nil {
 			// try the opposite direction keys to attribute the failure
 			oske, oska := ks.DirKeys(!cs.SenderI)
@@ -217,11 +286,11 @@ func evalC06(c *engine.Ctx, cs c06Case) {
 			wantFirst = m.P[0].T
 		}
 		if r.First != wantFirst {
-			c.Violate("lib2ref/sk-next-payload", fmt.Sprintf("%s: SK next payload %d, first inner payload %d", cs.Name, r.First, wantFirst), cs)
+			c.Violate("lib2ref/sk-next-payload"+retried, fmt.Sprintf("%s: SK next payload %d, first inner payload %d", cs.Name, r.First, wantFirst), cs)
 			return
 		}
 		if ref.CanonPayloads(r.Payloads) != ref.CanonPayloads(m.P) {
-			c.Violate("lib2ref/inner/"+ref.FirstDiff(m.P, r.Payloads)+map[bool]string{true: "/used-sa", false: ""}[cs.Warm != 0], fmt.Sprintf("%s: inner payloads %s", cs.Name, trs(ref.CanonPayloads(r.Payloads))), cs)
+			c.Violate("lib2ref/inner/"+ref.FirstDiff(m.P, r.Payloads)+map[bool]string{true: "/used-sa", false: ""}[cs.Warm != 0]+retried, fmt.Sprintf("%s: inner payloads %s", cs.Name, trs(ref.CanonPayloads(r.Payloads))), cs)
 			return
 		}
 		n := len(r.Inner)
